@@ -18,7 +18,7 @@ ValidateAll ==
     \cup A("required", {"true", "false"}) \cup A("ignore", {"always", "default"}) \cup A("cel", {"expr"})
 
 J5All ==
-    A("message", {"flatten", "plain"}) \cup A("object", {"flatten", "plain"}) \cup A("any", {"types", "only_defined"})
+    A("message", {"flatten", "plain"}) \cup A("object", {"flatten", "plain"}) \cup A("any", {"types", "only_defined", "types_unsorted", "types_dup"})
     \cup A("enum", {"plain"}) \cup A("oneof", {"plain"}) \cup A("map", {"single_form"}) \cup A("array", {"single_form"})
     \cup A("string", {"plain"}) \cup A("integer", {"rules", "plain"}) \cup A("float", {"plain"}) \cup A("bool", {"plain"})
     \cup A("bytes", {"plain"}) \cup A("decimal", {"rules"}) \cup A("date", {"rules"}) \cup A("timestamp", {"plain"})
@@ -82,7 +82,7 @@ WktPair == {"Timestamp", "Struct", "Any", "Empty"}
 ValidatePair == A("string", {"min_len", "uuid", "ip"}) \cup A("bool", {"const"}) \cup A("int32", {"gt", "const"}) \cup A("double", {"gt"})
                \cup A("repeated", {"min_items", "items_match", "items_string"}) \cup A("map", {"values_match", "values_string"})
                \cup A("enum", {"in_ok", "in_missing"}) \cup A("timestamp", {"lt", "const"}) \cup A("required", {"true"})
-J5Pair == A("object", {"flatten"}) \cup A("message", {"flatten"}) \cup A("key", {"uuid", "unspecified"}) \cup A("any", {"only_defined"}) \cup A("date", {"rules"})
+J5Pair == A("object", {"flatten"}) \cup A("message", {"flatten"}) \cup A("key", {"uuid", "unspecified"}) \cup A("any", {"only_defined", "types_unsorted"}) \cup A("date", {"rules"})
 ListPair == A("string", {"open_text", "fk_uuid", "fk_unique"}) \cup A("int32", {"rules"}) \cup A("int64", {"rules"}) \cup A("enum", {"rules"}) \cup A("timestamp", {"rules"})
 PsmPair == A("key", {"primary"})
 
